@@ -412,7 +412,7 @@ func judge(c *vk.Ctx, o *outcome, p1, p2 []rig.GStack) {
 
 func main() {
 	c := vk.Init("C13")
-	c.Rule("fault matrix: role {acceptor, initiator} x cause {peer EOF, read error, write error, peer stops reading (writes stall to the write deadline), Initiator.Close, Acceptor.Close, handler.Stop, a complete inbound frame without MsgType (the handler loop ends with an error), optionally followed by EOF, the peer falling silent until the session itself gives it up (logged-on phases only)} x phase {before logon, mid-handshake (cut inside the Logon bytes), established idle, inbound burst of 40 messages behind a slow application handler, steady inbound stream at a moderate rate, burst of 40 TestRequests (the handler loop itself is sending replies), a batch of 40 stored messages being retransmitted to a slowly reading peer, outbound burst from 4 sender goroutines, during logout, after a completed Logout exchange (connected, not logged on), established by a Logon whose sequence number is 4 ahead (a ResendRequest of this side is outstanding)} x handler/conn buffer {0,1,10} x cut position {message boundary, mid-field, inside the CheckSum field} x 3 timing offsets; quick: every (role,cause,phase) once, thorough: the full matrix. Plus a matrix of connections served for a bare handler without a session (nothing but the library's own teardown ends them): role x {peer EOF, read error, write error, owner Close, handler Stop} x {idle, inbound backlog behind a slow handler} x buffer sizes, and Initiator.Close before Serve. Oracle after the settling bound 3 s + 1.1 (N+1) with N=1: net.Conn.Close called; Serve returned; OnDisconnect/OnStopped/EventDisconnect for peer-caused ends; a Session.Send issued 1 s after the end returns within 3 s; senders that were inside Send are released; goroutine profile (debug=1, pprof label per scenario) shows no library-started goroutine in two samples 1 s apart. distinct = matrix cell; non-trivial = hand-offs were pending / senders in flight at fault time (measured) or a non-traffic phase")
+	c.Rule("fault matrix: role {acceptor, initiator} x cause {peer EOF, read error, write error, peer stops reading (writes stall to the write deadline), Initiator.Close, Acceptor.Close, handler.Stop, a complete inbound frame without MsgType (the handler loop ends with an error), optionally followed by EOF, the peer falling silent until the session itself gives it up (logged-on phases only)} x phase {before logon, mid-handshake (cut inside the Logon bytes), established idle, inbound burst of 40 messages behind a slow application handler, steady inbound stream at a moderate rate, burst of 40 TestRequests (the handler loop itself is sending replies), a batch of 40 stored messages being retransmitted to a slowly reading peer, outbound burst from 4 sender goroutines, during logout, after a completed Logout exchange (connected, not logged on), established by a Logon whose sequence number is 4 ahead (a ResendRequest of this side is outstanding)} x handler/conn buffer {0,1,10} x cut position {message boundary, mid-field, inside the CheckSum field} x 3 timing offsets; quick: every (role,cause,phase) once, thorough: the full matrix. Plus a matrix of connections served for a bare handler without a session (nothing but the library's own teardown ends them): role x {peer EOF, read error, write error, owner Close, handler Stop} x {idle, inbound backlog behind a slow handler} x buffer sizes, and Initiator.Close before Serve; plus Acceptor.Close at the moment a connection comes out of Accept (returned by Accept just after / just before Close): its socket is closed and ListenAndServe returns. Oracle after the settling bound 3 s + 1.1 (N+1) with N=1: net.Conn.Close called; Serve returned; OnDisconnect/OnStopped/EventDisconnect for peer-caused ends; a Session.Send issued 1 s after the end returns within 3 s; senders that were inside Send are released; goroutine profile (debug=1, pprof label per scenario) shows no library-started goroutine in two samples 1 s apart. distinct = matrix cell; non-trivial = hand-offs were pending / senders in flight at fault time (measured) or a non-traffic phase")
 	c.Assume("settling bound 5.2 s with N=1: the library's timer goroutines notice cancellation only at their next expiry, which is bounded and therefore allowed; the listener's accept loop is exempt until Acceptor.Close")
 	var cells []cell
 	for _, role := range []rig.Role{rig.Acceptor, rig.Initiator} {
@@ -492,6 +492,9 @@ func main() {
 		c.Flush(false)
 	}
 	bareMatrix(c)
+	if c.Shard == 0 {
+		acceptedWhileClosing(c)
+	}
 	c.Set("max_scheduler_oversleep_ms", float64(can.Max())/1e6)
 	c.Set("settling_bound_s", settle.Seconds())
 	c.Finish()
